@@ -26,7 +26,8 @@ def strategy(tier):
         # different priorities) on one source
         spec = draw(gen.charts(max_states=16 if big else 12, p_sends=0.2, send_delays=True,
                                p_eventless=0.2, p_aguard=0.15,
-                               dup_tr=0.3, p_orth_root=0.45, n_events=2, min_tr=6, max_tr=16))
+                               dup_tr=0.3, p_orth_root=0.45, n_events=2, min_tr=6, max_tr=16,
+                               p_wild=0.5))
         ops = draw(gen.histories(spec, 6, 20, n_events=2, advances=True, delays=True))
         return {'spec': spec, 'ops': ops, 'faults': draw(gen.faults(ops))}
     return cases()
